@@ -3,6 +3,7 @@ import itertools
 import re
 
 from rv.core.runner import WL
+from rv.monitor.poison import poison_text
 from rv.gen import styles as G
 from rv.model import markupgen as MG
 from rv.model import textview as TV
@@ -123,6 +124,15 @@ def wl_documents(ctx, rng, case_no):
         base = G.rand_record(rng, p_attr=0.1, p_link=0.0)
     wit = {"doc": doc, "expected_plain": g["plain"], "invalid": g["invalid"]}
     ctx.count("mon.doc_error")
+    if rng.random() < 0.2:
+        # an earlier render of the same document whose result the caller then edits: the render below is judged
+        # by the same oracle and must not notice
+        try:
+            poison_text(Text.from_markup(doc, emoji=False))
+            poison_text(markup.render(doc, emoji=False))
+            ctx.count("mon.result_poisoning")
+        except MarkupError:
+            pass
     try:
         if base is not None:
             t = Text.from_markup(doc, style=G.build(base), emoji=False)
